@@ -42,7 +42,7 @@ def _pair(draw):
     w = draw(gens.witness_s(pool))
     cls = draw(st.sampled_from(["identical", "sublist", "weakened", "farkas", "scaled", "separated", "unrelated",
                                 "unbounded", "infeasible-left", "infeasible-right", "empty-right", "empty-left",
-                                "equal-bounds", "both-infeasible", "separated-large-constant"]))
+                                "equal-bounds", "both-infeasible", "separated-large-constant", "farkas-chain"]))
     L = draw(gens.termlist_s(pool, w, 1, 5))
     if cls == "identical":
         R = list(draw(st.permutations(L)))
@@ -79,6 +79,23 @@ def _pair(draw):
         for _ in range(draw(st.integers(0, 2))):
             t = draw(gens.term_s(pool, None))
             L.append([t[0], t[1] + 40.0])
+    elif cls == "farkas-chain":
+        # the right-hand row follows only through a chain of 3-6 left-hand rows whose intermediate variables cancel
+        k = draw(st.integers(3, 6))
+        names = ["a", "b", "c", "x", "y", "z", "w"][:k]
+        sg = draw(st.sampled_from([1.0, -1.0]))
+        L, tot = [], 0.0
+        for p_, q_ in zip(names, names[1:]):
+            c = float(draw(st.integers(-2, 3)))
+            L.append([{p_: sg, q_: -sg}, c])
+            tot += c
+        c = float(draw(st.integers(-2, 3)))
+        L.append([{names[-1]: sg}, c])
+        tot += c
+        L = list(draw(st.permutations(L)))
+        R = [[{names[0]: sg}, tot + draw(st.sampled_from([0, 0, 1, -1, 0.5]))]]
+        if draw(st.booleans()):
+            R.append([{names[0]: sg, names[-1]: -sg}, tot - c + draw(st.sampled_from([0, 1]))])
     elif cls == "separated-large-constant":
         # a small but clear violation next to a very loose left-hand bound with a large constant
         R = draw(gens.termlist_s(pool, w, 1, 2))
